@@ -22,6 +22,7 @@
 #include <tbox/base/assert.h>
 #include <tbox/event/loop.h>
 #include <tbox/event/timer_event.h>
+#include <tbox/base/verif_hook.h>
 
 namespace tbox {
 namespace flow {
@@ -59,6 +60,13 @@ void SleepAction::onStart() {
 
     //! 计算出到期时间点并保存到 finish_time_
     auto now = std::chrono::steady_clock::now();
+#ifdef CPP_TBOX_VERIF
+    {
+        uint64_t verif_ms = 0;
+        if (verif::Hooks().steady_ms != nullptr && verif::Hooks().steady_ms(verif_ms))
+            now = std::chrono::steady_clock::time_point(std::chrono::milliseconds(verif_ms));
+    }
+#endif
     finish_time_ = now + time_span;
 
     timer_->initialize(time_span, event::Event::Mode::kOneshot);
@@ -73,6 +81,13 @@ void SleepAction::onStop() {
 void SleepAction::onPause() {
     //! 计算剩余时长，并保存到 remain_time_span_ 中
     auto now = std::chrono::steady_clock::now();
+#ifdef CPP_TBOX_VERIF
+    {
+        uint64_t verif_ms = 0;
+        if (verif::Hooks().steady_ms != nullptr && verif::Hooks().steady_ms(verif_ms))
+            now = std::chrono::steady_clock::time_point(std::chrono::milliseconds(verif_ms));
+    }
+#endif
     remain_time_span_ = std::chrono::duration_cast<std::chrono::milliseconds>(finish_time_ - now);
 
     timer_->disable();
